@@ -124,7 +124,7 @@ fn fwd1(op: OpKind, dims: &[usize], salt: u64) -> FwdCase {
         OpKind::Sum(_) | OpKind::Reshape(_) => iota(numel(dims), 1.0, 1.0),
         _ => gen_vals(salt, numel(dims), kind),
     };
-    FwdCase { op, leaves: vec![LeafSpec { dims: dims.to_vec(), vals, tracked: false }], force_exact: None }
+    FwdCase { op, leaves: vec![LeafSpec { dims: dims.to_vec(), vals, tracked: false }], force_exact: None, second_is_view_of_first: None }
 }
 
 fn enumerated(shapes: &[Vec<usize>]) -> Vec<FwdCase> {
@@ -248,7 +248,7 @@ pub fn campaigns(ctx: &Ctx) -> Stats {
     // softmax / exp / sigmoid far from zero: rows at very different offsets (all finite in f32 and f64)
     st.merge(ctx.run_indexed("wide-range-rows", 6 * 5 * 5 * 3, None, |i| {
         let shapes: [&[usize]; 6] = [&[3], &[2, 3], &[3, 2], &[2, 2, 2], &[4, 1, 3], &[2, 3, 1]];
-        let offs = [-60.0, -25.0, 0.0, 30.0, 55.0];
+        let offs: [f64; 5] = if crate::exec::IS_F32 { [-60.0, -25.0, 0.0, 30.0, 55.0] } else { [-600.0, -350.0, 0.0, 360.0, 650.0] };
         let d = shapes[(i % 6) as usize];
         let (o1, o2) = (offs[((i / 6) % 5) as usize], offs[((i / 30) % 5) as usize]);
         let l = *d.last().unwrap();
@@ -257,10 +257,52 @@ pub fn campaigns(ctx: &Ctx) -> Stats {
         let leaf = LeafSpec { dims: d.to_vec(), vals, tracked: false };
         Some(match (i / 150) % 3 {
             0 => Case7::S(ScalarCase::SoftmaxRows(leaf)),
-            1 => Case7::F(FwdCase { op: OpKind::Softmax, leaves: vec![leaf], force_exact: None }),
-            _ => Case7::F(FwdCase { op: if o1 > o2 { OpKind::Exp } else { OpKind::Sigmoid }, leaves: vec![leaf], force_exact: None }),
+            1 => Case7::F(FwdCase { op: OpKind::Softmax, leaves: vec![leaf], force_exact: None, second_is_view_of_first: None }),
+            _ => Case7::F(FwdCase { op: if o1 > o2 { OpKind::Exp } else { OpKind::Sigmoid }, leaves: vec![leaf], force_exact: None, second_is_view_of_first: None }),
         })
     }));
+    {
+        use OpKind::*;
+        let pops = [Neg, ScaleR(1.0), ScaleR(0.0), ScaleL(2.0), Relu, Sigmoid, Exp, Softmax, Sum(1), Sum(2), Powf(2.0), Powf(1.0), Powf(0.0), Powf(3.0), ActRelu, ActSigmoid, ActSoftmax];
+        let np_ = pops.len() as u64;
+        st.merge(ctx.run_indexed("value-patterns", np_ * N_PATTERNS as u64 * 2, None, |i| {
+            let pat = (i % N_PATTERNS as u64) as usize;
+            let op = pops[((i / N_PATTERNS as u64) % np_) as usize].clone();
+            let d: Vec<usize> = if i / N_PATTERNS as u64 / np_ == 0 { vec![2, 4] } else { vec![3, 1, 2] };
+            Some(Case7::F(FwdCase { op, leaves: vec![LeafSpec { dims: d.clone(), vals: pattern_vals(pat, numel(&d), i), tracked: false }], force_exact: None, second_is_view_of_first: None }))
+        }));
+        // finite values close to the largest / smallest normal numbers: maps that must not overflow or flush
+        st.merge(ctx.run_indexed("extreme-magnitudes", 8, None, |i| {
+            let big = if IS_F32 { f32::MAX as f64 } else { f64::MAX };
+            let tiny = if IS_F32 { f32::MIN_POSITIVE as f64 } else { f64::MIN_POSITIVE };
+            let vals = vec![big, -big, big / 2.0, tiny, -tiny, tiny / 4.0, 1.0, 0.0];
+            let op = [Relu, Neg, ScaleR(1.0), Reshape(vec![2, 4]), Sum(0), ScaleR(0.5), ActRelu, ScaleL(-1.0)][i as usize].clone();
+            Some(Case7::F(FwdCase { op, leaves: vec![LeafSpec { dims: vec![8], vals, tracked: false }], force_exact: Some(true), second_is_view_of_first: None }))
+        }));
+        let nb = BOUNDARY_SIZES.len() as u64;
+        let bops = [Sum(1), Sum(2), Softmax, Exp, Relu, Sigmoid];
+        st.merge(ctx.run_indexed("boundary-sizes", nb * bops.len() as u64 * 3 + nb * 2, None, |i| {
+            if i >= nb * bops.len() as u64 * 3 {
+                let j = i - nb * bops.len() as u64 * 3;
+                let n = BOUNDARY_SIZES[(j % nb) as usize] * if j / nb == 0 { 1 } else { 3 };
+                return Some(Case7::S(ScalarCase::SumAll(LeafSpec { dims: vec![n], vals: gen_vals(j, n, VKind::Int), tracked: false })));
+            }
+            let n = BOUNDARY_SIZES[(i % nb) as usize];
+            let op = bops[((i / nb) % bops.len() as u64) as usize].clone();
+            let d = match i / nb / bops.len() as u64 {
+                0 => vec![n],
+                1 => vec![2, n],
+                _ => vec![n, 3],
+            };
+            if let Sum(k) = &op {
+                if *k > d.len() {
+                    return None;
+                }
+            }
+            let kind = if matches!(op, Sum(_) | Relu) { VKind::Int } else { VKind::Small };
+            Some(Case7::F(FwdCase { op, leaves: vec![LeafSpec { dims: d.clone(), vals: gen_vals(i, numel(&d), kind), tracked: false }], force_exact: None, second_is_view_of_first: None }))
+        }));
+    }
     let (max_rank, max_size, total) = t.pick((4usize, 9usize, 40000u64), (5, 13, 600000));
     let nops = 6 + map_ops().len();
     let strat = move || (prop::collection::vec(1..=max_size, 1..=max_rank), 0..nops, any::<u8>(), -3.0f64..4.0, any::<u64>()).prop_map(|(dims, opi, p, e, vseed)| R7 { dims, opi, p, e: (e * 64.0).round() / 64.0, vseed }).boxed();
